@@ -113,7 +113,8 @@ fcp_parser = Lark(
     FLOAT_TYPE: /f32(?![A-Za-z0-9_])/
     DOUBLE_TYPE: /f64(?![A-Za-z0-9_])/
 
-    COMMENT: C_COMMENT | CPP_COMMENT
+    COMMENT: C_COMMENT | LINE_COMMENT
+    LINE_COMMENT: /\\/\\/[^\\r\\n]*/
 
     UNDERSCORE : "_"
     DOT : "."
@@ -125,7 +126,6 @@ fcp_parser = Lark(
     %import common.SIGNED_NUMBER   // imports from terminal library
     %import common.ESCAPED_STRING   // imports from terminal library
     %import common.C_COMMENT // imports from terminal library
-    %import common.CPP_COMMENT // imports from terminal library
     %ignore " "           // Disregard spaces in text
     %ignore "\\n"
     %ignore "\\r"
